@@ -1,5 +1,6 @@
 import GoImap.Model.ListMatch
 import GoImap.Spec.ListMatch
+import GoImap.Model.Utf7
 namespace GoImap.DriveC20
 open GoImap GoImap.ListMatch GoImap.ListMatchSpec
 
@@ -12,8 +13,23 @@ def allNames (alpha : List B) (maxLen : Nat) : List (List B) :=
 
 def toB (b : Bytes) : List B := b.map UInt8.toNat
 
-/-- delimiter rune number → the single byte it can equal in `string(name[j]) == delim` -/
-def delimByteOf (rune : Nat) : Option B := if rune = 0 then none else if rune < 256 then some rune else none
+/-- delimiter rune number → the delimiter as the byte-level oracle sees it (defined for an absent or
+    ASCII delimiter only) -/
+def delimByteOf (rune : Nat) : Option B := if rune = 0 then none else if rune < 128 then some rune else none
+
+/-- the oracle's answer for one name: byte-level `resolveMatch` for an absent or ASCII delimiter
+    (any bytes), rune-level `runeOracle` for a multi-byte delimiter when name, reference and pattern
+    are valid UTF-8; `none` (no verdict, the case is compared with the model only) otherwise -/
+def oracle (rune : Nat) (n r p : List B) : Option Bool :=
+  if rune < 128 then some (resolveMatch n (delimByteOf rune) r p)
+  else runeOracle Utf7.utf8dec n rune r p
+
+/-- compare a bitmap of answers with the oracle, skipping the names without a verdict -/
+def firstDiff (rune : Nat) (names : List (List B)) (r p : List B) (bitmap : String) : Option Nat :=
+  ((names.zip bitmap.toList).findIdx? fun (n, c) =>
+    match oracle rune n r p with
+    | some b => (if b then '1' else '0') != c
+    | none => false)
 
 def handle (f : List String) : String :=
   match f with
@@ -21,37 +37,33 @@ def handle (f : List String) : String :=
     match parseNat? rune, hexDecode? dhex, hexDecode? rhex, hexDecode? phex, hexDecode? ahex, parseNat? maxLen with
     | some rune, some d, some r, some p, some a, some ml =>
       let names := allNames (toB a) ml
-      let db := delimByteOf rune
-      let m := String.ofList (names.map fun n => if matchListTop n (toB d) db (toB r) (toB p) then '1' else '0')
-      -- the oracle is defined for an absent or single-byte ASCII delimiter
-      let orc := if rune < 128 then
-          let s := String.ofList (names.map fun n => if resolveMatch n db (toB r) (toB p) then '1' else '0')
-          if s == bitmap then "ok" else
-            let idx := ((s.toList.zip bitmap.toList).findIdx? (fun (x, y) => x != y)).getD 0
-            s!"fail:wildcard-semantics@name{idx}"
-        else "ok"
+      let m := String.ofList (names.map fun n => if matchListTopS n (toB d) (toB r) (toB p) then '1' else '0')
+      let orc := if bitmap.length != names.length then "fail:bad-line" else
+        match firstDiff rune names (toB r) (toB p) bitmap with
+        | none => "ok"
+        | some idx => s!"fail:wildcard-semantics@name{idx}"
       s!"{id}\t{boolStr (m == bitmap)}\t{orc}\t{m}"
     | _, _, _, _, _, _ => s!"{id}\t0\tfail:bad-line\t-"
   | [id, "list", rune, dhex, rhex, phex, names, impl] =>
     match parseNat? rune, hexDecode? dhex, hexDecode? rhex, hexDecode? phex, (splitOnChar names ',').mapM hexDecode? with
     | some rune, some d, some r, some p, some ns =>
-      let db := delimByteOf rune
       -- an empty pattern is the special "return the delimiter" request: no mailbox is listed
       let m := if p.isEmpty then String.ofList (ns.map fun _ => '0') else
-        String.ofList (ns.map fun n => if matchListTop (toB n) (toB d) db (toB r) (toB p) then '1' else '0')
-      let spec := if p.isEmpty then m else
-        String.ofList (ns.map fun n => if resolveMatch (toB n) db (toB r) (toB p) then '1' else '0')
-      let orc := if impl == spec then "ok" else "fail:list-result-differs-from-wildcard-semantics"
+        String.ofList (ns.map fun n => if matchListTopS (toB n) (toB d) (toB r) (toB p) then '1' else '0')
+      let orc := if impl.length != ns.length then "fail:bad-line"
+        else if p.isEmpty then (if impl == m then "ok" else "fail:list-result-differs-from-wildcard-semantics")
+        else match firstDiff rune (ns.map toB) (toB r) (toB p) impl with
+          | none => "ok"
+          | some _ => "fail:list-result-differs-from-wildcard-semantics"
       s!"{id}\t{boolStr (m == impl)}\t{orc}\t{m}"
     | _, _, _, _, _ => s!"{id}\t0\tfail:bad-line\t-"
   | [id, "one", rune, dhex, rhex, phex, nhex, impl] =>
     match parseNat? rune, hexDecode? dhex, hexDecode? rhex, hexDecode? phex, hexDecode? nhex with
     | some rune, some d, some r, some p, some n =>
-      let db := delimByteOf rune
-      let m := boolStr (matchListTop (toB n) (toB d) db (toB r) (toB p))
-      let orc := if rune < 128 then
-          (if boolStr (resolveMatch (toB n) db (toB r) (toB p)) == impl then "ok" else "fail:wildcard-semantics")
-        else "ok"
+      let m := boolStr (matchListTopS (toB n) (toB d) (toB r) (toB p))
+      let orc := match oracle rune (toB n) (toB r) (toB p) with
+        | some b => if boolStr b == impl then "ok" else "fail:wildcard-semantics"
+        | none => "ok"
       s!"{id}\t{boolStr (m == impl)}\t{orc}\t{m}"
     | _, _, _, _, _ => s!"{id}\t0\tfail:bad-line\t-"
   | id :: _ => s!"{id}\t0\tfail:bad-line\t-"
